@@ -228,6 +228,12 @@ func (d *dialer) Dial() (transport.Pipe, error) {
 		}
 		return nil, err
 	}
+	if w.ws.Subprotocol() != wd.Subprotocols[0] {
+		// The server must select the subprotocol we offered (RFC 6455
+		// section 4.1); anything else is a different SP protocol.
+		_ = w.ws.Close()
+		return nil, mangos.ErrBadProto
+	}
 	w.ws.SetReadLimit(int64(maxrx))
 	w.options[mangos.OptionLocalAddr] = w.ws.LocalAddr()
 	w.options[mangos.OptionRemoteAddr] = w.ws.RemoteAddr()
